@@ -2,7 +2,9 @@ pub mod ast;
 pub mod budget;
 pub mod c09;
 pub mod c16;
+pub mod c12;
 pub mod capi;
+pub mod corpus;
 pub mod dlengine;
 pub mod driver;
 pub mod faults;
@@ -199,6 +201,31 @@ fn replay(path: &str, verif_dir: &str, isolated: bool) -> i32 {
         "world" => driver::replay(&worldengine::WorldEngine::new(&property), &doc, verif_dir),
         "datalog" => driver::replay(&dlengine::DlEngine, &doc, verif_dir),
         "budget" => driver::replay(&budget::BudgetEngine, &doc, verif_dir),
+        "corpus" => {
+            let repo = std::env::var("REPO_DIR").unwrap_or_else(|_| "/repo".to_string());
+            let sample = doc["case"]["sample"].as_str().unwrap_or("").to_string();
+            match corpus::library_vs_corpus(&repo, &property, Some(&sample)) {
+                Ok((vs, _)) => {
+                    let known = known::load(verif_dir);
+                    let mut code = 0;
+                    for (v, _) in vs {
+                        if known.matches(&v).is_none() {
+                            println!("violation: class={} {}", v.class, v.detail);
+                            println!("VIOLATION property={} replay=<this file>", v.property);
+                            code = 1;
+                        }
+                    }
+                    if code == 0 {
+                        println!("replay: no violation");
+                    }
+                    code
+                }
+                Err(e) => {
+                    eprintln!("HARNESS: {e}");
+                    2
+                }
+            }
+        }
         "capi" => {
             if isolated {
                 driver::replay_isolated(&capi::CapiEngine, &doc, verif_dir)
